@@ -96,6 +96,28 @@ pub enum CdMode {
     ExtraMap(Vec<(String, Value)>),
     CustomHash(Vec<u8>),
     OptVec(Option<Vec<u8>>),
+    /// a caller-written `ClientData` whose extra data differs on every call (a sequence number);
+    /// the start value
+    Ticking(u32),
+}
+
+/// Extra client data of `CdMode::Ticking`.
+#[derive(Clone, Debug, Serialize)]
+pub struct Tick {
+    pub seq: u32,
+}
+
+/// A `ClientData` implementation as an application might write it: every call hands out the next
+/// sequence number.
+pub struct TickingClientData(pub std::sync::atomic::AtomicU32);
+
+impl passkey_client::ClientData<Tick> for TickingClientData {
+    fn extra_client_data(&self) -> Tick {
+        Tick { seq: self.0.fetch_add(1, std::sync::atomic::Ordering::Relaxed) }
+    }
+    fn client_data_hash(&self) -> Option<Vec<u8>> {
+        None
+    }
 }
 
 impl CdMode {
@@ -107,6 +129,7 @@ impl CdMode {
             CdMode::CustomHash(_) => "custom-hash",
             CdMode::OptVec(Some(_)) => "option-some",
             CdMode::OptVec(None) => "option-none",
+            CdMode::Ticking(_) => "caller-written-changing-extra",
         }
     }
     pub fn supplied_hash(&self) -> Option<&[u8]> {
@@ -171,6 +194,9 @@ pub struct RegSpec {
     pub uv_outcome: UvOutcome,
     /// attestation conveyance preference: 0 none (default), 1 indirect, 2 direct, 3 enterprise
     pub attestation: u8,
+    /// members a relying party may set and that have no bearing on the result: authenticator
+    /// attachment, timeout, hints, attestation formats, RP / user display names (see `misc_members`)
+    pub misc: u16,
 }
 
 #[derive(Clone, Debug)]
@@ -265,7 +291,7 @@ impl Op {
             Op::Register(r) => json!({"op": "register", "origin": r.origin.url(), "rp_id": r.rp_id, "user_id": hex_short(&r.user_id),
                 "user_name": r.user_name, "challenge": hex_short(&r.challenge), "algs": r.algs, "unknown_type_for_unsupported_algs": r.unknown_type_for_unsupported, "client_data": r.cd.name(),
                 "uv": r.uv.map(|u| format!("{u:?}")), "resident_key": r.resident_key.map(|u| format!("{u:?}")), "require_rk": r.require_rk,
-                "cred_props": r.cred_props, "prf": prf(&r.prf), "exclude": ids(&r.exclude), "uv_outcome": format!("{:?}", r.uv_outcome), "attestation_preference": r.attestation}),
+                "cred_props": r.cred_props, "prf": prf(&r.prf), "exclude": ids(&r.exclude), "uv_outcome": format!("{:?}", r.uv_outcome), "attestation_preference": r.attestation, "other_members": misc_json(r.misc)}),
             Op::Authenticate(a) => json!({"op": "authenticate", "origin": a.origin.url(), "rp_id": a.rp_id, "challenge": hex_short(&a.challenge),
                 "allow": allow(&a.allow), "allow_descriptor_types": a.allow_types, "client_data": a.cd.name(), "uv": format!("{:?}", a.uv), "prf": prf(&a.prf), "uv_outcome": format!("{:?}", a.uv_outcome)}),
             Op::Make(m) => json!({"op": "make_credential", "rp_id": m.rp_id, "user_id": hex_short(&m.user_id), "algs": m.algs, "unknown_type_for_unsupported_algs": m.unknown_type_for_unsupported,
@@ -427,7 +453,8 @@ impl World {
             Op::Authenticate(a) => {
                 if let Some(k) = a.rp_of {
                     let rp = self.model[k % self.model.len()].rp.clone();
-                    a.origin.host = rp.clone();
+                    // hosts of origins are lower-case (the URL parser sees to that); the RP ID keeps its spelling
+                    a.origin.host = rp.trim_end_matches('.').to_ascii_lowercase();
                     if a.rp_id.is_some() {
                         a.rp_id = Some(rp);
                     }
@@ -497,6 +524,7 @@ impl World {
                     3 => webauthn::AttestationConveyancePreference::Enterprise,
                     _ => webauthn::AttestationConveyancePreference::None,
                 };
+                misc_members_creation(&mut opts.public_key, r.misc);
                 let (ext, r1, r2) = self.ext_inputs(r.cred_props, &r.prf);
                 opts.public_key.extensions = ext;
                 rb = r1;
@@ -513,6 +541,7 @@ impl World {
                     }
                     CdMode::CustomHash(h) => block_on(c.register(u, opts, DefaultClientDataWithCustomHash(h.clone()))),
                     CdMode::OptVec(o) => block_on(c.register(u, opts, o.clone())),
+                    CdMode::Ticking(n) => block_on(c.register(u, opts, TickingClientData(std::sync::atomic::AtomicU32::new(*n)))),
                 })
             }
             Op::Authenticate(a) => {
@@ -547,6 +576,7 @@ impl World {
                     }
                     CdMode::CustomHash(h) => block_on(c.authenticate(u, opts, DefaultClientDataWithCustomHash(h.clone()))),
                     CdMode::OptVec(o) => block_on(c.authenticate(u, opts, o.clone())),
+                    CdMode::Ticking(n) => block_on(c.authenticate(u, opts, TickingClientData(std::sync::atomic::AtomicU32::new(*n)))),
                 })
             }
             Op::Make(m) => {
@@ -608,7 +638,14 @@ impl World {
         };
         let after = self.rig.store.snapshot();
         let events = self.rig.log.snapshot();
-        let after_debug: Vec<String> = self.rig.store.passkeys().iter().flat_map(|p| [format!("{p:?}"), format!("{p:#?}")]).collect();
+        let mut after_debug: Vec<String> = self.rig.store.passkeys().iter().flat_map(|p| [format!("{p:?}"), format!("{p:#?}")]).collect();
+        // the secret-holding parts of a stored passkey whose types are the library's own, rendered
+        // wherever the build of the library gives them a Debug implementation (`key` is a third-party
+        // `coset::CoseKey`, whose Debug is not the library's to write)
+        for p in self.rig.store.passkeys().iter() {
+            after_debug.extend(crate::debug_if_any!(p.extensions));
+            after_debug.extend(crate::debug_if_any!(p.extensions.hmac_secret));
+        }
         let after_spki: Vec<Vec<u8>> = self.rig.store.passkeys().iter().map(|p| match passkey_authenticator::public_key_der_from_cose_key(&p.key) {
             Ok(der) => der.to_vec(),
             Err(e) => format!("{e:?}").into_bytes(),
@@ -678,6 +715,48 @@ pub fn hinted(mut d: webauthn::PublicKeyCredentialDescriptor) -> webauthn::Publi
     d
 }
 
+/// The members of `misc` (RegSpec): attachment, timeout, hints, attestation formats, names.
+fn misc_parts(m: u16) -> (u16, u16, u16, u16, u16) {
+    (m % 3, (m / 3) % 4, (m / 12) % 3, (m / 36) % 3, (m / 108) % 4)
+}
+
+pub fn misc_json(m: u16) -> Value {
+    let (att, to, hints, fmts, names) = misc_parts(m);
+    let pick = |l: &[&'static str], i: u16| l[usize::from(i)];
+    json!({"authenticatorAttachment": pick(&["absent", "platform", "cross-platform"], att), "timeout": pick(&["absent", "0", "1", "u32::MAX"], to),
+        "hints": pick(&["absent", "[]", "[security-key, client-device, hybrid]"], hints), "attestationFormats": pick(&["absent", "[]", "[packed, none]"], fmts),
+        "names": pick(&["short", "empty", "300 characters", "non-ASCII"], names)})
+}
+
+fn misc_members_creation(o: &mut webauthn::PublicKeyCredentialCreationOptions, m: u16) {
+    let (att, to, hints, fmts, names) = misc_parts(m);
+    if att != 0 {
+        let sel = o.authenticator_selection.get_or_insert_with(Default::default);
+        sel.authenticator_attachment = Some(if att == 1 { webauthn::AuthenticatorAttachment::Platform } else { webauthn::AuthenticatorAttachment::CrossPlatform });
+    }
+    o.timeout = [None, Some(0), Some(1), Some(u32::MAX)][usize::from(to)];
+    o.hints = match hints {
+        1 => Some(vec![]),
+        2 => Some(vec![webauthn::PublicKeyCredentialHints::SecurityKey, webauthn::PublicKeyCredentialHints::ClientDevice, webauthn::PublicKeyCredentialHints::Hybrid]),
+        _ => None,
+    };
+    o.attestation_formats = match fmts {
+        1 => Some(vec![]),
+        2 => Some(vec![webauthn::AttestationStatementFormatIdentifiers::Packed, webauthn::AttestationStatementFormatIdentifiers::None]),
+        _ => None,
+    };
+    let name = match names {
+        1 => Some(String::new()),
+        2 => Some("n".repeat(300)),
+        3 => Some("\u{540d}\u{524d} \u{1F511}".to_string()),
+        _ => None,
+    };
+    if let Some(n) = name {
+        o.rp.name = n.clone();
+        o.user.display_name = n;
+    }
+}
+
 pub const RPS: &[(&str, &[&str])] = &[
     ("example.com", &["example.com", "www.example.com", "login.accounts.example.com"]),
     ("example.org", &["example.org", "app.example.org"]),
@@ -708,6 +787,16 @@ pub fn gen_origin(rng: &mut Rng) -> (OriginSpec, Option<String>) {
     } else {
         None
     };
+    // an asset-link host is a caller-supplied string and may be spelled with capitals; the effective
+    // RP ID is then that spelling
+    let (host, rp_id) = if android.is_some() && rng.chance(1, 3) {
+        let mut c = host.chars();
+        let spelled = c.next().map(|f| f.to_ascii_uppercase().to_string() + c.as_str()).unwrap_or_default();
+        let rp_id = rp_id.map(|r| if r == host { spelled.clone() } else { r });
+        (spelled, rp_id)
+    } else {
+        (host, rp_id)
+    };
     (OriginSpec { scheme: "https", host, port: if android.is_some() { None } else { port }, android }, rp_id)
 }
 
@@ -735,6 +824,7 @@ pub fn gen_cd(rng: &mut Rng) -> CdMode {
         }
         3 => CdMode::OptVec(Some(rng.bytes(32))),
         4 => CdMode::OptVec(None),
+        5 => CdMode::Ticking(rng.below(1000) as u32),
         _ => CdMode::Default,
     }
 }
@@ -806,6 +896,7 @@ pub fn gen_register(rng: &mut Rng) -> RegSpec {
         exclude: if rng.chance(1, 5) { Some(gen_idrefs(rng)) } else { None },
         uv_outcome: gen_uv_outcome(rng),
         attestation: *rng.pick(&[0u8, 0, 1, 2, 3]),
+        misc: if rng.bool() { 0 } else { rng.below(1 << 15) as u16 },
     }
 }
 
@@ -835,6 +926,18 @@ pub fn gen_authenticate(rng: &mut Rng) -> AuthSpec {
 
 pub fn gen_make(rng: &mut Rng) -> MakeSpec {
     let (rp, _) = RPS[rng.below(RPS.len())];
+    // at the CTAP boundary the RP ID is an opaque string: some callers spell it with capitals or a
+    // trailing dot (each spelling is its own relying party)
+    let rp_spelled: String = match rng.below(8) {
+        0 => rp.to_ascii_uppercase(),
+        1 => format!("{rp}."),
+        2 => {
+            let mut c = rp.chars();
+            c.next().map(|f| f.to_ascii_uppercase().to_string() + c.as_str()).unwrap_or_default()
+        }
+        _ => rp.to_string(),
+    };
+    let rp = rp_spelled.as_str();
     let (user_id, _) = gen_user(rng);
     MakeSpec {
         rp_id: rp.to_string(),
@@ -857,6 +960,18 @@ pub fn gen_make(rng: &mut Rng) -> MakeSpec {
 
 pub fn gen_get(rng: &mut Rng) -> GetSpec {
     let (rp, _) = RPS[rng.below(RPS.len())];
+    // at the CTAP boundary the RP ID is an opaque string: some callers spell it with capitals or a
+    // trailing dot (each spelling is its own relying party)
+    let rp_spelled: String = match rng.below(8) {
+        0 => rp.to_ascii_uppercase(),
+        1 => format!("{rp}."),
+        2 => {
+            let mut c = rp.chars();
+            c.next().map(|f| f.to_ascii_uppercase().to_string() + c.as_str()).unwrap_or_default()
+        }
+        _ => rp.to_string(),
+    };
+    let rp = rp_spelled.as_str();
     GetSpec {
         rp_of: if rng.chance(3, 5) { Some(rng.below(16)) } else { None },
         rp_id: rp.to_string(),
